@@ -45,7 +45,7 @@ REQUIRED_COUNTERS = ['obs:gen:doe:uniform', 'obs:gen:doe:fullfact', 'obs:gen:doe
                      'obs:fullfact-product-compared', 'obs:lhs-strata-dimensions', 'obs:seeded-reproducibility',
                      'obs:driver-evaluations-compared', 'obs:recorded-cases-compared', 'obs:units-converted',
                      'obs:indices-applied', 'obs:scaled-desvar']
-SHARD_TIMEOUT = {'quick': 600, 'thorough': 3000}
+SHARD_TIMEOUT = {'quick': 2400, 'thorough': 6000}   # ~80 CPU-s per quick shard; generous for loaded machines
 
 LENGTH = ['m', 'cm', 'km', 'ft', 'inch']
 TEMP = ['degK', 'degC', 'degF']
